@@ -35,6 +35,26 @@ type callRec struct {
 
 var callsites []callRec
 
+// pool-level waiting discipline (C17, Pool/Progress.v): every call from a function of gengine_pool.go to a method of the pool
+// or to the engine's Execute*, and every lock acquisition in that file, with the locks held at that point
+var poolcalls []callRec
+
+type acqRec struct {
+	fn, lock string
+	held     []string
+}
+
+var poolacqs []acqRec
+
+func sortedSet(m map[string]bool) []string {
+	var hs []string
+	for k := range m {
+		hs = append(hs, k)
+	}
+	sort.Strings(hs)
+	return hs
+}
+
 type lockWalker struct {
 	x        *xctx
 	file, fn string
@@ -120,6 +140,13 @@ func (w *lockWalker) reads(e ast.Node, held map[string]bool, inGo bool) {
 						}
 					}
 				}
+				if w.recv != "" && strings.HasPrefix(c, w.recv+".") && strings.Count(c, ".") == 1 {
+					poolcalls = append(poolcalls, callRec{caller: w.fn, callee: c[len(w.recv)+1:], held: sortedSet(held)})
+				} else if strings.HasPrefix(c, "gw.gengine.Execute") {
+					poolcalls = append(poolcalls, callRec{caller: w.fn, callee: "engine.Execute", held: sortedSet(held)})
+				} else if !strings.Contains(c, ".") && c != "make" && c != "len" && c != "append" && c != "delete" && c != "panic" && c != "recover" && c != "int" && c != "int64" {
+					poolcalls = append(poolcalls, callRec{caller: w.fn, callee: c, held: sortedSet(held)})
+				}
 				if c == "updateIncremental" {
 					var hs []string
 					for k := range held {
@@ -200,6 +227,9 @@ func (w *lockWalker) block(list []ast.Stmt, held map[string]bool, inGo bool) (ma
 	for _, s := range list {
 		if n, lock, ok := lockCall(w.x, s); ok {
 			if lock {
+				if w.file == "gengine_pool.go" {
+					poolacqs = append(poolacqs, acqRec{fn: w.fn, lock: w.normLock(n), held: sortedSet(held)})
+				}
 				held[w.normLock(n)] = true
 			} else {
 				delete(held, w.normLock(n))
@@ -373,6 +403,31 @@ func xlateLocks(args []string) error {
 			sep = ""
 		}
 		fmt.Fprintf(o, "  mkCall %s %s [%s]%s\n", coqStr(c.caller), coqStr(c.callee), strings.Join(hs, "; "), sep)
+	}
+	fmt.Fprintln(o, "].")
+	strs := func(l []string) string {
+		var hs []string
+		for _, h := range l {
+			hs = append(hs, coqStr(h))
+		}
+		return strings.Join(hs, "; ")
+	}
+	fmt.Fprintln(o, "Definition gen_poolcalls : list callsite := [")
+	for i, c := range poolcalls {
+		sep := ";"
+		if i == len(poolcalls)-1 {
+			sep = ""
+		}
+		fmt.Fprintf(o, "  mkCall %s %s [%s]%s\n", coqStr(c.caller), coqStr(c.callee), strs(c.held), sep)
+	}
+	fmt.Fprintln(o, "].")
+	fmt.Fprintln(o, "Definition gen_poolacqs : list acq := [")
+	for i, a := range poolacqs {
+		sep := ";"
+		if i == len(poolacqs)-1 {
+			sep = ""
+		}
+		fmt.Fprintf(o, "  mkAcq %s %s [%s]%s\n", coqStr(a.fn), coqStr(a.lock), strs(a.held), sep)
 	}
 	fmt.Fprintln(o, "].")
 	return nil
